@@ -828,7 +828,7 @@ class state_machine_base : public FrontEnd
 
       public:
         completion_event_occurrence(uint8_t region_id)
-            : event_occurrence(&try_process), m_region_id(region_id)
+            : event_occurrence(&try_process, true), m_region_id(region_id)
         {
         }
 
@@ -912,6 +912,14 @@ class state_machine_base : public FrontEnd
                 continue;
             }
 
+            // The limit is reached: only complete the step of the last event
+            // (pending completion transitions must not be overtaken by later events).
+            const bool is_completion = event.is_completion();
+            if (processed_events == max_events && !is_completion)
+            {
+                break;
+            }
+
             std::optional<process_result> result =
                 event.try_process(self(), event_pool.cur_seq_cnt);
             // The event has not been dispatched.
@@ -921,14 +929,11 @@ class state_machine_base : public FrontEnd
                 continue;
             }
 
-            // Consider anything except "only deferred" to be a processed event.
-            if (*result != process_result::HANDLED_DEFERRED)
+            // Consider anything except "only deferred" to be a processed event,
+            // completion transitions are part of the event that triggered them.
+            if (!is_completion && *result != process_result::HANDLED_DEFERRED)
             {
                 processed_events++;
-                if (processed_events == max_events)
-                {
-                    break;
-                }
             }
 
             // Start from the beginning, we might be able to process
